@@ -23,6 +23,11 @@ pub fn quiet_panics() {
     }));
 }
 
+/// The message recorded by the panic hook on this thread since the last call (if any).
+pub fn take_last_panic() -> Option<String> {
+    LAST_PANIC.with(|p| p.borrow_mut().take())
+}
+
 /// Run `f`, turning a panic into Err(message @ location).
 pub fn guard<R>(f: impl FnOnce() -> R) -> Result<R, String> {
     LAST_PANIC.with(|p| *p.borrow_mut() = None);
